@@ -121,7 +121,7 @@ func (p ParallelBatchParser[T]) processAsync(batches []string, work func(int, st
 // splitIntoChunks divides a string into n substrings of roughly equal byte-size
 // (not character-count). The chunk’s byte size might differ slightly: (a) because
 // the last chunk contains the remainder, which will probably be smaller, and (b)
-// because the chunks are never divided in between UTF-8 code points.
+// because the chunks are never divided in between UTF-8 code points or CRLF sequences.
 func splitIntoChunks(txt string, numberOfBatches int) []string {
 	batchByteSize := int(math.Ceil(float64(len(txt)) / float64(numberOfBatches)))
 	batches := make([]string, numberOfBatches)
@@ -129,6 +129,11 @@ func splitIntoChunks(txt string, numberOfBatches int) []string {
 	for i := 0; i < numberOfBatches; i++ {
 		nextPointer := pointer + batchByteSize
 		for nextPointer < len(txt) && !utf8.RuneStart(txt[nextPointer]) {
+			nextPointer++
+		}
+		if nextPointer > 0 && nextPointer < len(txt) && txt[nextPointer-1] == '\r' && txt[nextPointer] == '\n' {
+			// Don’t divide a CRLF line ending either, since a lone `\r` at the end
+			// of a chunk would be mistaken for a significant line.
 			nextPointer++
 		}
 		if nextPointer > len(txt) {
